@@ -63,8 +63,9 @@ Print Assumptions C20_line_layout.
 
 (* For every origin [o], every list of lines in any lexical layout ([line_ok]) whose token
    sequences follow the master-file grammar [ZoneToks] for the records [rs] (owner absolute,
-   origin-relative, @ or inherited from the previous record; TTL and class stated in either order
-   or inherited from $TTL / the last stated value; $ORIGIN and $TTL directives, blank and comment
+   origin-relative, @ or inherited from the previous record; TTL (decimal or with s/m/h/d/w
+   units) and class stated in either order or inherited from $TTL / the last stated value; class
+   and type mnemonics in any letter case; $ORIGIN and $TTL directives, blank and comment
    lines anywhere; RDATA words plain, quoted or gathered in parentheses), with well-formed,
    pairwise distinct records: the loader without the cap returns exactly [rs], in order. *)
 Theorem C20_roundtrip_nocap : forall o lines rs,
@@ -89,6 +90,19 @@ Theorem C20_roundtrip_guarded : forall o lines rs,
   parse (Some (abs_name o)) (render_zone lines) = ROk (map denote rs).
 Proof. exact zone_roundtrip_lines. Qed.
 Print Assumptions C20_roundtrip_guarded.
+
+(* A last line without line break is loaded like any other (the flush at the end of the input):
+   the zone [lines] followed by the unterminated line [last], whose token list is completed by
+   the missing end-of-line token in the grammar. *)
+Theorem C20_roundtrip_no_final_newline_guarded : forall o lines last rs,
+  forallb good_short lines = true -> line_noeol_ok last = true ->
+  (length (render_noeol last) <= 2045)%nat ->
+  ZoneToks (ps0 o) (map line_tokens lines ++ [line_tokens_noeol last ++ [TEOL]]) rs ->
+  forallb srec_ok rs = true ->
+  distinct (map denote rs) = true ->
+  parse (Some (abs_name o)) (render_zone lines ++ render_noeol last) = ROk (map denote rs).
+Proof. exact zone_roundtrip_last. Qed.
+Print Assumptions C20_roundtrip_no_final_newline_guarded.
 
 (* ---- whatever the text, what is loaded is well formed ------------------------------- *)
 
@@ -123,6 +137,14 @@ Print Assumptions C20_ddd_escape_refuted.
 Theorem C20_at_in_rdata_refuted : parse ex_o (nl "a 60 IN NS @") = RErr 2.
 Proof. vm_compute. reflexivity. Qed.
 Print Assumptions C20_at_in_rdata_refuted.
+
+(* F2e: a relative name after $ORIGIN is not completed with the current origin:
+   "$ORIGIN sub" under example.com. makes www mean www.sub. instead of www.sub.example.com. *)
+Theorem C20_relative_origin_refuted :
+  parse ex_o (nl "$ORIGIN sub" ++ nl "www 60 IN A 192.0.2.1") =
+    ROk [MkRR (abs_name [s2l "www"; s2l "sub"]) 1 60 (DA 192 0 2 1)].
+Proof. vm_compute. reflexivity. Qed.
+Print Assumptions C20_relative_origin_refuted.
 
 (* F2c: "malformed text yields an error" is false when the file ends inside parentheses right
    after a word or inside a comment: the group is dropped silently *)
@@ -168,6 +190,16 @@ Proof.
   split; [exact H1|]. split; [exact H4|]. split; [exact ex_zone_toks|]. split; [exact H2|]. split; [exact H3|].
   split; [reflexivity|]. split; [exact P|].
   eapply C20_loaded_records_wellformed; [|exact P]. reflexivity.
+Qed.
+
+Example C20_no_final_newline_example :
+  forallb good_short ex2_lines = true /\ line_noeol_ok ex2_last = true /\
+  ZoneToks (ps0 ex_origin) (map line_tokens ex2_lines ++ [line_tokens_noeol ex2_last ++ [TEOL]]) ex2_recs /\
+  parse (Some (abs_name ex_origin)) (s2l "$TTL 1h" ++ [10] ++ s2l "www A 192.0.2.7") = ROk (map denote ex2_recs).
+Proof.
+  destruct ex2_side as (H1 & H2 & H3 & H4 & H5 & H6).
+  split; [exact H1|]. split; [exact H2|]. split; [exact ex2_zone_toks|].
+  rewrite <- H6. apply C20_roundtrip_no_final_newline_guarded; auto. exact ex2_zone_toks.
 Qed.
 
 Example C20_line_example :
